@@ -212,11 +212,6 @@ PROPERTIES["C01"] = dict(
         H("ast::ast_info_traverser::__verif::c01_a3t_expr_binary", QT, "real traverse_mut visits EVERY AstInfo of the tree (so affected()'s message stripping reaches every nested node of a reused tree)", "one concrete tree shape `1+1`; token ranges and Reference offsets symbolic; in-place, no Clone", timeout=600, mem_gb=12),
         H("ast::ast_info_traverser::__verif::c01_a3t_expr_named", QT, "real traverse_mut visits EVERY AstInfo of the tree (so affected()'s message stripping reaches every nested node of a reused tree)", "one concrete tree shape `a`; token ranges and Reference offsets symbolic; in-place, no Clone", timeout=600, mem_gb=12),
         H("ast::ast_info_traverser::__verif::c01_a3t_expr_array_access", QT, "real traverse_mut visits EVERY AstInfo of the tree (so affected()'s message stripping reaches every nested node of a reused tree)", "one concrete tree shape `a[1]`; token ranges and Reference offsets symbolic; in-place, no Clone", timeout=600, mem_gb=12),
-        H("ast::ast_info_traverser::__verif::c01_a3t_stmt_lean_assign", [], "real traverse_mut visits EVERY AstInfo of the statement tree", "one concrete tree shape `a := 1`; token ranges and Reference offsets symbolic; in-place, no Clone", timeout=1800, mem_gb=12),
-        H("ast::ast_info_traverser::__verif::c01_a3t_stmt_lean_call", [], "real traverse_mut visits EVERY AstInfo of the statement tree", "one concrete tree shape `f(1)`; token ranges and Reference offsets symbolic; in-place, no Clone", timeout=1800, mem_gb=12),
-        H("ast::ast_info_traverser::__verif::c01_a3t_stmt_lean_if_else", [], "real traverse_mut visits EVERY AstInfo of the statement tree", "one concrete tree shape `if (1) ; else ;`; token ranges and Reference offsets symbolic; in-place, no Clone", timeout=1800, mem_gb=12),
-        H("ast::ast_info_traverser::__verif::c01_a3t_stmt_lean_while", [], "real traverse_mut visits EVERY AstInfo of the statement tree", "one concrete tree shape `while (1) ;`; token ranges and Reference offsets symbolic; in-place, no Clone", timeout=1800, mem_gb=12),
-        H("ast::ast_info_traverser::__verif::c01_a3t_stmt_lean_block", [], "real traverse_mut visits EVERY AstInfo of the statement tree", "one concrete tree shape `{ ; <error> }`; token ranges and Reference offsets symbolic; in-place, no Clone", timeout=1800, mem_gb=12),
         H("ast::ast_info_traverser::__verif::c01_a3t_twin_must_fail", QT, "vacuity twin", "", expect="fail", timeout=600),
         H("parser::utility::__verif::c01_a2_t", T, "affected(): reuse => same as parse from scratch", "8 old tokens + Eof, <=2 inserted; unwind 3 (loop-free harness)", timeout=5400, mem_gb=30),
     ],
